@@ -4679,3 +4679,68 @@ func E5MemoTestCoversFields(c *core.Ctx, r *core.Report) {
 	r.Count("E5.memo-fields", n)
 	r.Floor("E5.memo-fields", 3)
 }
+
+// E5StringBytesEscaped: every data byte of a literal string shown by TJ passes the escape chain.
+func E5StringBytesEscaped(c *core.Ctx, r *core.Report) {
+	r.Rule("E5.string-bytes-escaped", "WriteText shows glyph codes as PDF literal strings `( … )`. Inside one a reader reads `\\`, `(` and `)` as syntax and turns a bare carriage return into a line feed, so every data byte is written through the chain that tests it against those values: each `WriteByte(x)` in WriteText whose operand is not a constant has for x a variable that the enclosing if/else-if chain compares with '\\\\', '(', ')' and '\\r'. A byte written past the chain (`w.WriteByte(uint8(glyphID >> 8))` for the high byte of a two-byte code) changes the code a reader decodes once a font contributes more than 3328 glyphs: codes 0x0D00–0x0DFF are read as 0x0A00–0x0AFF and select other glyphs, and 0x28/0x29/0x5C as high bytes break the string")
+	p := c.MustPkg("renderers/pdf")
+	info := p.TypesInfo
+	fd := core.MustFuncDecl(p, "pdfPageWriter.WriteText")
+	r.Func("pdf.pdfPageWriter.WriteText")
+	n := 0
+	need := []int64{'\\', '(', ')', '\r'}
+	walkStack(fd.Body, func(m ast.Node, stack []ast.Node) {
+		ce, ok := m.(*ast.CallExpr)
+		if !ok || len(ce.Args) != 1 {
+			return
+		}
+		if f := core.CalleeOf(info, ce); f == nil || f.Name() != "WriteByte" {
+			return
+		}
+		if tv, ok := info.Types[ce.Args[0]]; ok && tv.Value != nil {
+			return
+		}
+		n++
+		key := fmt.Sprintf("pdf.pdfPageWriter.WriteText|data byte #%d is written through the escape chain", n)
+		id, ok := core.Unparen(ce.Args[0]).(*ast.Ident)
+		if !ok {
+			r.Fail("E5.string-bytes-escaped", key, c.Pos(ce.Pos()), fmt.Sprintf("`%s` is written into the literal string without being tested against `\\`, `(`, `)` and CR: for those values a reader decodes a different code or the string ends early", c.Src(ce)))
+			return
+		}
+		o := core.ObjOf(info, id)
+		seen := map[int64]bool{}
+		for _, a := range stack {
+			is, ok := a.(*ast.IfStmt)
+			if !ok {
+				continue
+			}
+			ast.Inspect(is.Cond, func(q ast.Node) bool {
+				be, ok := q.(*ast.BinaryExpr)
+				if !ok || be.Op != token.EQL {
+					return true
+				}
+				for _, pr := range [][2]ast.Expr{{be.X, be.Y}, {be.Y, be.X}} {
+					if xid, ok := core.Unparen(pr[0]).(*ast.Ident); ok && core.ObjOf(info, xid) == o {
+						if v, ok := core.ConstInt(info, pr[1]); ok {
+							seen[v] = true
+						}
+					}
+				}
+				return true
+			})
+		}
+		var missing []string
+		for _, k := range need {
+			if !seen[k] {
+				missing = append(missing, fmt.Sprintf("%q", rune(k)))
+			}
+		}
+		if len(missing) == 0 {
+			r.OK("E5.string-bytes-escaped", key, c.Pos(ce.Pos()), "")
+		} else {
+			r.Fail("E5.string-bytes-escaped", key, c.Pos(ce.Pos()), fmt.Sprintf("`%s` is written without `%s` having been compared with %s on the way", c.Src(ce), id.Name, strings.Join(missing, ", ")))
+		}
+	})
+	r.Count("E5.string-data-bytes", n)
+	r.Floor("E5.string-data-bytes", 4)
+}
